@@ -134,7 +134,8 @@ def file_entry(path: str, language: str, lengths, checksum="0" * 32, names=None,
 
     if nested and len(lengths) > 1:
         total = sum(lengths) + 2 * len(lengths)
-        ms = [Measurement(names[i] if names else f"f{i}", Location(1 + i, 1 + 2 * i), Location(total - i, 2 + 2 * i), L) for i, L in enumerate(lengths)]
+        # (functions 1 and 2 START ON THE SAME LINE at different columns: `function a() { return function b() {`)
+        ms = [Measurement(names[i] if names else f"f{i}", Location(1 + max(0, i - 1), 1 + 12 * i), Location(total - i, 2 + 2 * i), L) for i, L in enumerate(lengths)]
         return SourceFileEntry(path, checksum, language, sum(lengths), ms)
     ms = []
     line = 1
